@@ -906,7 +906,10 @@ func main() {
 	log.SetOutput(io.Discard)
 	seed := flag.Uint64("seed", 1, "seed")
 	n := flag.Int("n", 1, "rounds of the randomised scenarios")
-	findings := flag.Bool("findings", false, "also run the scenarios that exhibit the known findings (UDP zero checksum, ping6)")
+	findings := flag.Bool("findings", false, "also run the scenarios that exhibit all three known findings")
+	fUDPZero := flag.Bool("udpzero", false, "run the UDP zero-checksum scenario (known finding C06-udp-zero-checksum)")
+	fPing6 := flag.Bool("ping6", false, "run the ping6 echo-request scenario (known finding C06-ping6-no-pseudo-header)")
+	fNDPMac := flag.Bool("ndpmac", false, "run the neighbour solicitation over Ethernet scenario (known finding C06-ndp-solicit-zero-src-mac)")
 	routes := flag.Int("routes", 60, "FindRoute configurations per round")
 	only := flag.String("only", "", "run only the scenarios whose name has this prefix (debugging)")
 	flag.Parse()
@@ -914,6 +917,9 @@ func main() {
 	if syscall.Getrlimit(syscall.RLIMIT_NOFILE, &rl) == nil {
 		rl.Cur = rl.Max
 		syscall.Setrlimit(syscall.RLIMIT_NOFILE, &rl)
+	}
+	if *findings {
+		*fUDPZero, *fPing6, *fNDPMac = true, true, true
 	}
 	r := gen.New(*seed)
 	o := &output{w: bufio.NewWriterSize(os.Stdout, 1<<20), kinds: map[string]int{}}
@@ -987,14 +993,14 @@ func main() {
 			v6 := v6
 			guard("echo-resolve", func() { scenEcho(o, r, kResolve, v6) })
 			guard("ping", func() {
-				if !v6 || *findings {
+				if !v6 || *fPing6 {
 					scenPing(o, r, v6)
 				}
 			})
 			for _, eth := range []bool{false, true} {
 				eth := eth
 				// a neighbour solicitation over fdbased carries a zero source MAC (known finding)
-				if !(eth && v6) || *findings {
+				if !(eth && v6) || *fNDPMac {
 					guard("resolve", func() { scenResolve(o, r, eth, v6, false) })
 				}
 			}
@@ -1005,7 +1011,7 @@ func main() {
 		for i := 0; i < *routes; i++ {
 			guard("route", func() { scenRoute(o, r) })
 		}
-		if *findings {
+		if *fUDPZero {
 			guard("udp-zero", func() { scenUDPZero(o, r, false) })
 			guard("udp-zero6", func() { scenUDPZero(o, r, true) })
 		}
